@@ -84,6 +84,12 @@ func initMatrix(w, h, kind int) (*gozxing.BitMatrix, *mmodel) {
 				}
 			}
 		}
+	case 4: // sparse: one bit far right in a low row (whole words before it are empty)
+		set(w-1-w/8, 3%h)
+	case 5: // sparse: opposite corners plus one bit in the middle
+		set(w-1, 0)
+		set(0, h-1)
+		set(w/2, h/2)
 	}
 	return r, m
 }
@@ -527,19 +533,35 @@ func runMatrix() {
 	var shapes []shape
 	for w := 1; w <= 130; w++ {
 		for h := 1; h <= 8; h++ {
-			for init := 0; init < 4; init++ {
+			for init := 0; init < 5; init++ {
 				shapes = append(shapes, shape{w, h, init})
 			}
 		}
 	}
 	depth := chk.Pick(2, 3)
-	chk.Range(fmt.Sprintf("BitMatrix all widths 1..130 x heights 1..8 x 4 contents, depth %d", depth), len(shapes),
+	chk.Range(fmt.Sprintf("BitMatrix all widths 1..130 x heights 1..8 x 5 contents, depth %d", depth), len(shapes),
 		func(i int) string { return fmt.Sprint(shapes[i]) },
 		func(l *mc.Local, i int) {
 			s := shapes[i]
 			searchMatrix(l, s.w, s.h, s.init, depth, false, 1<<30)
 		})
 	chk.Sample("BitMatrix history", mcase{64, 3, 2, []string{"FlipAll", "Rotate180", "Set(32,1)"}})
+	// shapes with BOTH sides above one word (rows and columns of several words), incl. sparse contents
+	var big []shape
+	for _, w := range []int{33, 40, 64, 65, 97} {
+		for _, h := range []int{33, 40, 64, 65, 100} {
+			for init := 0; init < 6; init++ {
+				big = append(big, shape{w, h, init})
+			}
+		}
+	}
+	bd := chk.Pick(2, 3)
+	chk.Range(fmt.Sprintf("BitMatrix with both sides above 32: widths {33,40,64,65,97} x heights {33,40,64,65,100} x 6 contents (incl. sparse: single far bit, opposite corners), depth %d", bd), len(big),
+		func(i int) string { return fmt.Sprint(big[i]) },
+		func(l *mc.Local, i int) {
+			s := big[i]
+			searchMatrix(l, s.w, s.h, s.init, bd, false, 1<<30)
+		})
 	// deep search around the word boundaries, full menu
 	var deep []shape
 	for _, w := range []int{31, 32, 33, 63, 64, 65, 96, 128} {
